@@ -90,11 +90,14 @@ def main():
             # a test counts as broken by the change if it passes on the unmodified tree (same command, same process layout) and not with the change
             # (test ids with parameters drawn at random at collection time differ between runs: those are compared per
             #  test function by their failure counts)
-            broken = sorted(n for n, st in clean_res.items() if st == "pass" and n in res and res[n] != "pass")
+            # only tests that are stable in this environment count (BASELINE.stable_pass); tests outside that list fail or
+            # pass at random here (dynamo recompile limits, unseeded random parametrisations)
+            stable_fn = {x.split("[")[0] for x in STABLE}
+            broken = sorted(n for n, st in clean_res.items() if st == "pass" and n in res and res[n] != "pass" and n in STABLE)
             fn = lambda n: n.split("[")[0]
             only_c = [n for n in clean_res if n not in res]
             only_p = [n for n in res if n not in clean_res]
-            for f in sorted({fn(n) for n in only_p}):
+            for f in sorted({fn(n) for n in only_p} & stable_fn):
                 fc = sum(1 for n in only_c if fn(n) == f and clean_res[n] == "fail")
                 fp = sum(1 for n in only_p if fn(n) == f and res[n] == "fail")
                 if fp > fc:
